@@ -43,6 +43,8 @@ struct Inner {
     free_run: bool,
     active: BTreeSet<&'static str>,
     steps: Vec<Step>,
+    /// actors of these kinds register themselves at their first point
+    auto_kinds: BTreeSet<&'static str>,
 }
 
 pub struct Ctl {
@@ -67,10 +69,31 @@ impl Ctl {
                 free_run: false,
                 active: active.iter().cloned().collect(),
                 steps: vec![],
+                auto_kinds: BTreeSet::new(),
             }),
             cv: Condvar::new(),
             on_frame: Mutex::new(None),
         })
+    }
+
+    pub fn set_auto_kinds(&self, kinds: &[&'static str]) {
+        self.inner.lock().unwrap().auto_kinds = kinds.iter().cloned().collect();
+    }
+
+    /// Wait until an actor of `kind` exists (parked or finished).
+    pub fn await_kind(&self, kind: &str, timeout: Duration) -> bool {
+        let t0 = Instant::now();
+        let mut g = self.inner.lock().unwrap();
+        loop {
+            if g.actors.iter().any(|a| a.who.kind == kind && a.status != Status::Running) {
+                return true;
+            }
+            if t0.elapsed() > timeout {
+                return false;
+            }
+            let (ng, _) = self.cv.wait_timeout(g, Duration::from_millis(20)).unwrap();
+            g = ng;
+        }
     }
 
     pub fn is_free_run(&self) -> bool {
@@ -191,9 +214,22 @@ impl Sched for Ctl {
         if g.free_run || !g.active.contains(p.op) {
             return;
         }
-        let Some(idx) = g.actors.iter().position(|a| a.who == who) else {
+        let idx = match g.actors.iter().position(|a| a.who == who) {
+            Some(i) => i,
+            None if g.auto_kinds.contains(who.kind) => {
+                g.actors.push(Actor {
+                    who,
+                    status: Status::Running,
+                    op: "auto",
+                    frame_id: None,
+                    reported_epoch: 0,
+                    enabled: false,
+                    grants: 0,
+                });
+                g.actors.len() - 1
+            }
             // a managed identity we were never told about: let it run
-            return;
+            None => return,
         };
         {
             let a = &mut g.actors[idx];
